@@ -1,10 +1,10 @@
 package main
 
 import (
-	"os"
 	"fmt"
 	"go/token"
 	"go/types"
+	"os"
 	"sort"
 	"strings"
 
@@ -12,13 +12,14 @@ import (
 )
 
 type Place struct {
-	Kind string // cell | field | elem | box | struct
-	Heap string
-	Ref  Term
-	Idx  Term
-	Sort Sort
-	Type types.Type // pointee type (for cellfield: the struct type)
+	Kind  string // cell | field | elem | box | struct
+	Heap  string
+	Ref   Term
+	Idx   Term
+	Sort  Sort
+	Type  types.Type // pointee type (for cellfield: the struct type)
 	Field int
+	Outer *Place // cellfield nested in another cellfield (struct-valued field of a struct cell)
 }
 
 type edge struct {
@@ -28,6 +29,7 @@ type edge struct {
 }
 
 type retRec struct {
+	blk   *ssa.BasicBlock
 	guard Term
 	vals  []Term
 	st    *State
@@ -41,18 +43,18 @@ type rangeRec struct {
 }
 
 type LoopInfo struct {
-	header    *ssa.BasicBlock
-	blocks    map[*ssa.BasicBlock]bool
-	ordinal   int
-	lc        *LoopContract
-	headState *State
-	entryPhi  map[*ssa.Phi]Term
-	visited   string
-	visKey    Sort
-	writes    map[string]bool
-	frameVars []string
-	targets   map[string][]ssa.Value
-	entryState *State
+	header       *ssa.BasicBlock
+	blocks       map[*ssa.BasicBlock]bool
+	ordinal      int
+	lc           *LoopContract
+	headState    *State
+	entryPhi     map[*ssa.Phi]Term
+	visited      string
+	visKey       Sort
+	writes       map[string]bool
+	frameVars    []string
+	targets      map[string][]ssa.Value
+	entryState   *State
 	fieldTargets map[string][]*ssa.FieldAddr
 }
 
@@ -62,27 +64,28 @@ type deferRec struct {
 }
 
 type Frame struct {
-	c        *Enc
-	fn       *ssa.Function
-	id       string
-	vals     map[ssa.Value]Term
-	tuples   map[ssa.Value][]Term
-	places   map[ssa.Value]*Place
-	arrayPtr map[ssa.Value]bool
-	at       map[*ssa.BasicBlock]Term
-	edgesIn  map[*ssa.BasicBlock][]*edge
-	loops    map[*ssa.BasicBlock]*LoopInfo
-	fc       *FuncContract
-	entry    *State
-	rets     []retRec
-	ranges   map[ssa.Value]*rangeRec
-	top      bool
-	defers   []*deferRec
-	closures map[ssa.Value]*ssa.MakeClosure
-	fvCell   map[*ssa.FreeVar]string
-	curBlock *ssa.BasicBlock
+	c             *Enc
+	fn            *ssa.Function
+	id            string
+	vals          map[ssa.Value]Term
+	tuples        map[ssa.Value][]Term
+	places        map[ssa.Value]*Place
+	arrayPtr      map[ssa.Value]bool
+	at            map[*ssa.BasicBlock]Term
+	edgesIn       map[*ssa.BasicBlock][]*edge
+	loops         map[*ssa.BasicBlock]*LoopInfo
+	fc            *FuncContract
+	entry         *State
+	rets          []retRec
+	ranges        map[ssa.Value]*rangeRec
+	top           bool
+	defers        []*deferRec
+	closures      map[ssa.Value]*ssa.MakeClosure
+	fvCell        map[*ssa.FreeVar]string
+	curBlock      *ssa.BasicBlock
 	closureFrames map[ssa.Value]*Frame
-	witness  map[string]TV
+	witness       map[string]TV
+	exitLocals    map[string]TV
 }
 
 func (c *Enc) newFrame(fn *ssa.Function, top bool) *Frame {
@@ -190,7 +193,11 @@ func (fr *Frame) load(p *Place, st *State) Term {
 	case "cellfield":
 		si := c.structInfoOf(p.Type)
 		f := si.fields[p.Field]
-		return Term{app(string(si.sort)+"_"+f.name, c.get(st, p.Heap)), f.sort}
+		base := c.get(st, p.Heap)
+		if p.Outer != nil {
+			base = fr.load(p.Outer, st)
+		}
+		return Term{app(string(si.sort)+"_"+f.name, base), f.sort}
 	case "field", "box":
 		return Select(c.get(st, p.Heap), p.Ref, p.Sort)
 	case "elem":
@@ -218,6 +225,9 @@ func (fr *Frame) store(p *Place, st *State, v Term) {
 	case "cellfield":
 		si := c.structInfoOf(p.Type)
 		cur := c.get(st, p.Heap)
+		if p.Outer != nil {
+			cur = fr.load(p.Outer, st)
+		}
 		var parts []Term
 		for i, f := range si.fields {
 			if i == p.Field {
@@ -226,7 +236,12 @@ func (fr *Frame) store(p *Place, st *State, v Term) {
 				parts = append(parts, Term{app(string(si.sort)+"_"+f.name, cur), f.sort})
 			}
 		}
-		c.set(st, p.Heap, Term{app("mk_"+string(si.sort), parts...), si.sort})
+		nv := Term{app("mk_"+string(si.sort), parts...), si.sort}
+		if p.Outer != nil {
+			fr.store(p.Outer, st, nv)
+			return
+		}
+		c.set(st, p.Heap, nv)
 	case "field", "box":
 		c.set(st, p.Heap, Store(c.get(st, p.Heap), p.Ref, v))
 	case "elem":
@@ -662,7 +677,7 @@ func (fr *Frame) enterLoop(li *LoopInfo) (Term, *State) {
 			}
 			x := fr.evalCtxAt(stEntry, fr.entryStateForOld(), li, overrideEntry)
 			if g, ok := x.evalBool(cl.Expr); ok {
-				c.oblige(fmt.Sprintf("%s/entry[%s]", name, cl.Label), "invariant-entry", atEntry, g, cl.Text)
+				c.obligeClause(cl, fmt.Sprintf("%s/entry[%s]", name, cl.Label), "invariant-entry", atEntry, g, cl.Text)
 			}
 		}
 	}
@@ -714,7 +729,7 @@ func (fr *Frame) enterLoop(li *LoopInfo) (Term, *State) {
 			}
 			x := fr.evalCtxAt(stH, fr.entryStateForOld(), li, nil)
 			if g, ok := x.evalBool(cl.Expr); ok {
-				c.assume(atEntry, g)
+				c.assumeClause(atEntry, g, cl.Label)
 			}
 		}
 	}
@@ -909,14 +924,14 @@ func (fr *Frame) backEdge(from, to *ssa.BasicBlock, cond Term, st *State) {
 			case "invariant":
 				x := fr.evalCtxAt(st, fr.entryStateForOld(), li, override)
 				if g, ok := x.evalBool(cl.Expr); ok {
-					c.oblige(fmt.Sprintf("%s/preserved[%s]%s", name, cl.Label, suffix), "invariant-preserved", cond, g, cl.Text)
+					c.obligeClause(cl, fmt.Sprintf("%s/preserved[%s]%s", name, cl.Label, suffix), "invariant-preserved", cond, g, cl.Text)
 				}
 			case "step":
 				// two-state: old() is the state at the loop head of this iteration
 				x := fr.evalCtxAt(st, li.headState, li, override)
 				x.stepMode = true
 				if g, ok := x.evalBool(cl.Expr); ok {
-					c.oblige(fmt.Sprintf("%s/step[%s]%s", name, cl.Label, suffix), "step", cond, g, cl.Text)
+					c.obligeClause(cl, fmt.Sprintf("%s/step[%s]%s", name, cl.Label, suffix), "step", cond, g, cl.Text)
 				}
 			}
 		}
@@ -992,8 +1007,34 @@ func (fr *Frame) lookupLocal(name string, at *ssa.BasicBlock, phiOverride map[*s
 			}
 		}
 	}
+	if name == "outerindex" && at != nil {
+		// index of the iteration in progress of the innermost enclosing slice range loop
+		var outer *ssa.BasicBlock
+		for h, li := range fr.loops {
+			if h != at && li.blocks[at] && (outer == nil || len(li.blocks) < len(fr.loops[outer].blocks)) {
+				outer = h
+			}
+		}
+		if outer != nil {
+			for _, ins := range outer.Instrs {
+				phi, ok := ins.(*ssa.Phi)
+				if !ok {
+					break
+				}
+				if phi.Comment == "rangeindex" {
+					return TV{Add(fr.val(phi), IntLit(1)), tyInt}, true
+				}
+			}
+		}
+		return TV{}, false
+	}
 	if tv, ok := fr.witness[name]; ok {
 		return tv, true
+	}
+	if at == nil && len(fr.rets) > 1 {
+		if tv, ok := fr.lookupLocalAtExit(name, x); ok {
+			return tv, true
+		}
 	}
 	// DebugRefs
 	var best ssa.Value
@@ -1068,6 +1109,81 @@ func (fr *Frame) lookupLocal(name string, at *ssa.BasicBlock, phiOverride map[*s
 	return TV{fr.val(best), best.Type()}, true
 }
 
+// lookupLocalAtExit: the value of a source-level variable when the function returns. Each return has its own
+// reaching definition: the last reference to the variable (go/ssa DebugRef) in the deepest block dominating the
+// return. The per-return values are tied to one symbol under the return guards; a return the variable does not
+// reach leaves the symbol unconstrained there.
+func (fr *Frame) lookupLocalAtExit(name string, x *EvalCtx) (TV, bool) {
+	c := fr.c
+	if fr.exitLocals == nil {
+		fr.exitLocals = map[string]TV{}
+	}
+	type cand struct {
+		v    ssa.Value
+		addr bool
+	}
+	perRet := make([]*cand, len(fr.rets))
+	var typ types.Type
+	found := false
+	for ri, r := range fr.rets {
+		var best *cand
+		var bestBlk *ssa.BasicBlock
+		for _, b := range fr.fn.Blocks {
+			if !b.Dominates(r.blk) {
+				continue
+			}
+			for _, ins := range b.Instrs {
+				dr, ok := ins.(*ssa.DebugRef)
+				if !ok {
+					continue
+				}
+				obj := dr.Object()
+				if obj == nil || obj.Name() != name {
+					continue
+				}
+				if _, isVar := obj.(*types.Var); !isVar {
+					continue
+				}
+				if bestBlk == nil || bestBlk.Dominates(b) {
+					best, bestBlk = &cand{dr.X, dr.IsAddr}, b
+				}
+			}
+		}
+		if best != nil {
+			if best.addr {
+				// address-taken variable: its place is read in the exit state (one cell for all returns)
+				pl := fr.place(best.v)
+				return TV{fr.load(pl, x.st), pl.Type}, true
+			}
+			if _, ok := fr.vals[best.v]; !ok {
+				if _, isConst := best.v.(*ssa.Const); !isConst {
+					best = nil
+				}
+			}
+		}
+		if best != nil {
+			perRet[ri] = best
+			typ = best.v.Type()
+			found = true
+		}
+	}
+	if !found {
+		return TV{}, false
+	}
+	if tv, ok := fr.exitLocals[name]; ok {
+		return tv, true
+	}
+	sym := c.fresh("exit_"+sanitize(name), c.sortOf(typ))
+	for ri, r := range fr.rets {
+		if perRet[ri] != nil && types.Identical(perRet[ri].v.Type(), typ) {
+			c.assume(r.guard, Eq(sym, fr.val(perRet[ri].v)))
+		}
+	}
+	tv := TV{sym, typ}
+	fr.exitLocals[name] = tv
+	return tv, true
+}
+
 // ---------------------------------------------------------------------------
 // instructions
 
@@ -1096,6 +1212,11 @@ func (fr *Frame) encodeInstr(ins ssa.Instruction, at Term, st *State) {
 		if base, ok := fr.places[x.X]; ok && base.Kind == "cell" {
 			si := c.structInfoOf(pt)
 			fr.places[x] = &Place{Kind: "cellfield", Heap: base.Heap, Sort: si.fields[x.Field].sort, Type: pt, Field: x.Field}
+			return
+		}
+		if base, ok := fr.places[x.X]; ok && base.Kind == "cellfield" {
+			si := c.structInfoOf(pt)
+			fr.places[x] = &Place{Kind: "cellfield", Heap: base.Heap, Sort: si.fields[x.Field].sort, Type: pt, Field: x.Field, Outer: base}
 			return
 		}
 		var ref Term
@@ -1220,7 +1341,7 @@ func (fr *Frame) encodeInstr(ins ssa.Instruction, at Term, st *State) {
 		for _, r := range x.Results {
 			vals = append(vals, fr.val(r))
 		}
-		fr.rets = append(fr.rets, retRec{guard: at, vals: vals, st: st})
+		fr.rets = append(fr.rets, retRec{blk: b, guard: at, vals: vals, st: st})
 	case *ssa.Panic:
 		c.safe("panic", at, False, "explicit panic is unreachable")
 	case *ssa.Defer:
@@ -1332,22 +1453,34 @@ func (fr *Frame) localCellName(x *ssa.Alloc) string {
 	return name
 }
 
+// fieldAddrLocal: a field address that is only loaded from, stored to, or refined to a nested field.
+func fieldAddrLocal(r *ssa.FieldAddr) bool {
+	for _, rr := range *r.Referrers() {
+		switch u := rr.(type) {
+		case *ssa.UnOp, *ssa.DebugRef:
+		case *ssa.Store:
+			if u.Val == ssa.Value(r) {
+				return false
+			}
+		case *ssa.FieldAddr:
+			if _, ok := u.X.Type().Underlying().(*types.Pointer).Elem().Underlying().(*types.Struct); !ok || !fieldAddrLocal(u) {
+				return false
+			}
+		default:
+			return false
+		}
+	}
+	return true
+}
+
 // localStructAlloc: the address of a struct allocation never leaves the function: it is only used
 // for field access, whole loads/stores, and as the target of json.Unmarshal.
 func localStructAlloc(x *ssa.Alloc) bool {
 	for _, ref := range *x.Referrers() {
 		switch r := ref.(type) {
 		case *ssa.FieldAddr:
-			for _, rr := range *r.Referrers() {
-				switch u := rr.(type) {
-				case *ssa.UnOp, *ssa.DebugRef:
-				case *ssa.Store:
-					if u.Val == ssa.Value(r) {
-						return false
-					}
-				default:
-					return false
-				}
+			if !fieldAddrLocal(r) {
+				return false
 			}
 		case *ssa.UnOp, *ssa.DebugRef, *ssa.MakeClosure:
 		case *ssa.Store:
@@ -1395,7 +1528,7 @@ func (fr *Frame) encodeIndexAddr(x *ssa.IndexAddr, at Term, st *State) {
 		sl := fr.val(x.X)
 		heap, es := c.elemHeap(u.Elem())
 		c.safe("index", at, And(Le(IntLit(0), idx), Lt(idx, slLen(sl))), fmt.Sprintf("index in range of %s", x.X.Name()))
-		fr.places[x] = &Place{Kind: "elem", Heap: heap, Ref: slArr(sl), Idx: Add(slOff(sl), idx), Sort: es, Type: u.Elem()}
+		fr.places[x] = &Place{Kind: "elem", Heap: heap, Ref: slArr(sl), Idx: pos(slOff(sl), idx), Sort: es, Type: u.Elem()}
 		if st2, ok := isStructValue(u.Elem()); ok {
 			_ = st2
 		}
@@ -1787,6 +1920,32 @@ func (fr *Frame) addrWrites(addr ssa.Value, ws map[string]bool) {
 			c.cellVar(name, pt)
 			ws[name] = true
 			return
+		}
+		// a field of a struct that lives in a cell (captured variable, package variable, or a struct-valued
+		// field of one): the store rewrites the cell, not a field heap
+		switch root := a.X.(type) {
+		case *ssa.FreeVar, *ssa.Global:
+			fr.addrWrites(root, ws)
+			return
+		case *ssa.FieldAddr:
+			r := ssa.Value(root)
+			for {
+				fa, ok := r.(*ssa.FieldAddr)
+				if !ok {
+					break
+				}
+				r = fa.X
+			}
+			switch rr := r.(type) {
+			case *ssa.FreeVar, *ssa.Global:
+				fr.addrWrites(rr, ws)
+				return
+			case *ssa.Alloc:
+				if localStructAlloc(rr) {
+					fr.addrWrites(rr, ws)
+					return
+				}
+			}
 		}
 		h, _, _ := c.fieldHeap(pt, a.Field)
 		ws[h] = true
